@@ -1,5 +1,5 @@
-"""C24 type descriptors -> Java type names (direct calls; the end-to-end part through DvClass.get_source
-lives in vf/checks/c24_e2e once the DEX writer is available)."""
+"""C24 type descriptors -> Java type names: direct calls of util.get_type / dex.get_type, and end to end: the types the decompiler
+prints for fields, parameters, return types, superclass, interfaces and the class header of generated DEX files."""
 import itertools
 
 from vf.harness import exc_str
@@ -52,7 +52,8 @@ def gen_desc(rng):
 def run(ctx):
     from androguard.core import dex
     from androguard.decompiler import util
-    ctx.rule = ("direct calls of decompiler.util.get_type and dex.get_type on descriptors: exhaustive primitives x dims 0..3, "
+    ctx.rule = ("end to end: abstract classes with random field/parameter/return/super/interface types decompiled by DvClass.get_source(), every printed type compared; "
+                "direct calls of decompiler.util.get_type and dex.get_type on descriptors: exhaustive primitives x dims 0..3, "
                 "all 1..3-segment class names over a fixed segment alphabet, random descriptors (look-alike packages, nested arrays to depth 255); "
                 "distinct non-trivial = distinct (function, package-class, #segments, dims-class) with a class type")
     ctx.assumptions = ["accepted spellings: fully-qualified dotted name, or the short name for direct members of java.lang; one [] per dimension"]
@@ -121,3 +122,123 @@ def run(ctx):
     ctx.sample({"desc": "Ljava/lang/annotation/Foo;", "accepted": sorted(accepted("Ljava/lang/annotation/Foo;"))})
     ctx.require_counter("util.get_type")
     ctx.require_counter("dex.get_type")
+    end_to_end(ctx)
+    ctx.require_counter("printed_types_compared", 200)
+
+
+def class_header_names(desc):
+    """accepted spellings of the class's own name in its header: the simple name (the package is printed separately)"""
+    inner = desc[1:-1]
+    return {inner.rsplit("/", 1)[-1]}
+
+
+def end_to_end(ctx):
+    import re
+    from androguard.core.analysis.analysis import Analysis
+    from androguard.core.dex import DEX
+    from androguard.decompiler.decompiler import DecompilerDAD
+    from vf.model import dexw as W
+    rng = ctx.rng("c24-e2e")
+    n = 40 if ctx.quick else 1200
+    for k in range(n):
+        m = W.DexModel()
+        classes = []
+        for ci in range(rng.choice([1, 2, 3])):
+            pk = rng.choice(["", "", "p/", "p/q/", "java/lang/", "java/lang/ref/", "java/language/", "javax/x/"])
+            cname = "L%sK%d_%d;" % (pk, k, ci)
+            sup = rng.choice(["Ljava/lang/Object;", "Ljava/lang/ref/WeakReference;", "Ljava/lang/Thread;", "Lx/Base;", "LNoPackageBase;"])
+            ifs = rng.sample(["Ljava/lang/Runnable;", "Ljava/lang/annotation/Annotation;", "Ljava/io/Serializable;", "LNoPkgIface;"], rng.randrange(0, 3))
+            c = m.add_class(cname, W.ACC_PUBLIC, sup, ifs)
+            fields = []
+            for fi in range(rng.randrange(0, 5)):
+                d = gen_desc(rng)
+                if d.count("[") > 6:
+                    d = d.lstrip("[")
+                c.add_field("f%d" % fi, d, rng.choice([0, W.ACC_PUBLIC, W.ACC_STATIC]))
+                fields.append(("f%d" % fi, d))
+            methods = []
+            for mi in range(rng.randrange(0, 4)):
+                ret = rng.choice(["V", gen_desc(rng).lstrip("[") if rng.random() < 0.5 else gen_desc(rng)])
+                if ret.count("[") > 6:
+                    ret = ret.lstrip("[")
+                params = []
+                for _ in range(rng.randrange(0, 4)):
+                    d = gen_desc(rng)
+                    if d.count("[") > 6:
+                        d = d.lstrip("[")
+                    params.append(d)
+                c.add_method("m%d" % mi, ret, params, W.ACC_PUBLIC | W.ACC_ABSTRACT)
+                methods.append(("m%d" % mi, ret, params))
+            c.access |= W.ACC_ABSTRACT
+            classes.append((cname, sup, ifs, fields, methods))
+        try:
+            d = DEX(W.write_dex(m))
+            dx = Analysis(d)
+            d.set_decompiler(DecompilerDAD(d, dx))
+            dx.create_xref()
+        except Exception as e:
+            ctx.violation("e2e-parse-raises", "DEX/Analysis raises on a generated file", {"exc": exc_str(e)})
+            continue
+        for cname, sup, ifs, fields, methods in classes:
+            ctx.ev()
+            ctx.count("classes_decompiled")
+            try:
+                src = d.get_class(cname).get_source()
+            except Exception as e:
+                ctx.violation("e2e-decompile-raises", "get_source raises", {"class": cname, "exc": exc_str(e)})
+                continue
+            wit = {"class": cname, "source": src[:1200]}
+            hm = re.search(r"^(?:[a-z]+ )*(?:class|interface) (\S+)(?: extends (\S+))?(?: implements ([^{]*))? \{", src, re.M)
+            if not hm:
+                ctx.violation("e2e-class-header-unparsable", "class header not found in the decompiled source", wit)
+                continue
+            ctx.count("printed_types_compared")
+            if hm.group(1) not in class_header_names(cname):
+                mech = "class-header-package-less-keeps-L" if "/" not in cname and hm.group(1) == cname[:-1] else "class-header-name"
+                ctx.violation(mech, "the class header names the class differently from its descriptor", dict(wit, got=hm.group(1), accepted=sorted(class_header_names(cname))))
+            if sup != "Ljava/lang/Object;":
+                ctx.count("printed_types_compared")
+                if hm.group(2) not in accepted(sup):
+                    ctx.violation("superclass-name", "superclass rendered as a different Java type", dict(wit, got=hm.group(2), accepted=sorted(accepted(sup))))
+            got_ifs = [x.strip() for x in (hm.group(3) or "").split(",") if x.strip()]
+            if len(got_ifs) != len(ifs) or any(g not in accepted(i) for g, i in zip(got_ifs, ifs)):
+                ctx.violation("interface-name", "interfaces rendered as different Java types", dict(wit, got=got_ifs, want=ifs))
+            ctx.count("printed_types_compared", len(ifs))
+            for fname, fd in fields:
+                fm = re.search(r"^\s*(?:[a-z]+ )*(\S+) %s;" % fname, src, re.M)
+                ctx.count("printed_types_compared")
+                if not fm:
+                    ctx.violation("field-not-printed", "a declared field is missing in the decompiled class", dict(wit, field=fname))
+                elif fm.group(1) not in accepted(fd):
+                    ctx.violation("field-type-" + pkgclass_of(fd), "field type rendered as a different Java type", dict(wit, field=fname, desc=fd, got=fm.group(1), accepted=sorted(accepted(fd))))
+                ctx.sig("e2e-field", pkgclass_of(fd), min(fd.count("["), 3))
+            for mname, ret, params in methods:
+                mm = re.search(r"(\S+) %s\(([^)]*)\)" % mname, src)
+                ctx.count("printed_types_compared", 1 + len(params))
+                if not mm:
+                    ctx.violation("method-not-printed", "a declared method is missing in the decompiled class", dict(wit, method=mname))
+                    continue
+                if mm.group(1) not in accepted(ret):
+                    ctx.violation("return-type-" + pkgclass_of(ret), "return type rendered as a different Java type", dict(wit, method=mname, desc=ret, got=mm.group(1), accepted=sorted(accepted(ret))))
+                gp = [x.strip().rsplit(" ", 1)[0] for x in mm.group(2).split(",") if x.strip()]
+                if len(gp) != len(params):
+                    ctx.violation("parameter-count", "the printed prototype has another number of parameters", dict(wit, method=mname, got=gp, want=list(params)))
+                    continue
+                for g, pd in zip(gp, params):
+                    if g not in accepted(pd):
+                        ctx.violation("parameter-type-" + pkgclass_of(pd), "parameter type rendered as a different Java type", dict(wit, method=mname, desc=pd, got=g, accepted=sorted(accepted(pd))))
+                    ctx.sig("e2e-param", pkgclass_of(pd), min(pd.count("["), 3))
+        if k == 0:
+            ctx.sample({"e2e_class": classes[0][0], "fields": classes[0][3], "methods": classes[0][4], "source": src[:500]})
+
+
+def pkgclass_of(desc):
+    b = desc.lstrip('[')
+    if b in PRIMS:
+        return "prim"
+    segs = b[1:-1].split('/')
+    if segs[:2] == ['java', 'lang']:
+        return "javalang-direct" if len(segs) == 3 else "javalang-sub"
+    if segs[0].startswith('jav') and len(segs) > 1 and segs[1].startswith('lan'):
+        return "lookalike"
+    return "other"
